@@ -96,7 +96,9 @@ def gen_plan(prop, tier, rng, i):
                 ev["dst"] = _mkpath(rng, (wstart, wend))
         events.append(ev)
     plan = {"engine": "evsim15", "flags": flags, "wstart": wstart, "wend": wend, "events": events,
-            "recording": None, "tzform": rng.choice(["utc", "utc", "naive", "+0530", "-0800"])}
+            "recording": None, "tzform": rng.choice(["utc", "utc", "naive", "+0530", "-0800"]),
+            # time zone of the process that builds the handler (naive bounds mean UTC whatever it is)
+            "proc_tz": rng.choice([None, None, "XYZ5", "ABC-05:30", "EST5EDT,M3.2.0,M11.1.0"])}
     if i % 3 == 0:
         cfg = M.gen_cfg(rng, {"maxcap": 100})
         t = 0
@@ -216,6 +218,13 @@ def run_plan(prop, plan):
     root = os.path.join(sc, "watched")
     os.makedirs(root)
     flags = dict(plan["flags"])
+    old_tz = os.environ.get("TZ")
+    if plan.get("proc_tz"):
+        import time as _time
+
+        os.environ["TZ"] = plan["proc_tz"]
+        _time.tzset()
+        res.probe("process_tz_not_utc")
     try:
         calls = []
 
@@ -343,6 +352,14 @@ def run_plan(prop, plan):
         res.stats["distinct_paths_judged_by_listing"] = len(oracle.cache)
         return res
     finally:
+        if plan.get("proc_tz"):
+            import time as _time
+
+            if old_tz is None:
+                os.environ.pop("TZ", None)
+            else:
+                os.environ["TZ"] = old_tz
+            _time.tzset()
         if not os.environ.get("VSIM_KEEP"):
             shutil.rmtree(sc, ignore_errors=True)
 
